@@ -245,8 +245,8 @@ namespace cds { namespace intrusive {
                             nodeSize = arrayNodeSize;
                         }
                         else if ( slot.bits() == base_class::flag_array_converting ) {
-                            // the slot is converting to array node right now - skip the node
-                            ++idx;
+                            // the slot is converting to array node right now - wait until the conversion is done
+                            back_off()();
                         }
                         else {
                             if ( slot.ptr()) {
@@ -256,6 +256,8 @@ namespace cds { namespace intrusive {
                                     m_idx = idx;
                                     return;
                                 }
+                                // the slot has been changed (removed, replaced or split) - examine it again
+                                continue;
                             }
                             ++idx;
                         }
@@ -303,8 +305,8 @@ namespace cds { namespace intrusive {
                             idx = nodeSize - 1;
                         }
                         else if ( slot.bits() == base_class::flag_array_converting ) {
-                            // the slot is converting to array node right now - skip the node
-                            --idx;
+                            // the slot is converting to array node right now - wait until the conversion is done
+                            back_off()();
                         }
                         else {
                             if ( slot.ptr()) {
@@ -314,6 +316,8 @@ namespace cds { namespace intrusive {
                                     m_idx = idx;
                                     return;
                                 }
+                                // the slot has been changed (removed, replaced or split) - examine it again
+                                continue;
                             }
                             --idx;
                         }
